@@ -2780,6 +2780,12 @@ fn run_unpack(case: &Value) -> Value {
     std::fs::write(cache_dir.join("src").join("other-1.0.0").join(".cargo-ok"), "ok").unwrap();
     std::fs::write(tmp.path().join("outside.txt"), "outside").unwrap();
     std::fs::create_dir_all(cache_dir.join("cache")).unwrap();
+    // what an earlier, interrupted (or foreign) unpack may have left below cache/src
+    for e in case["pre"].as_array().map(|a| a.as_slice()).unwrap_or(&[]) {
+        let p = cache_dir.join("src").join(e["path"].as_str().unwrap());
+        std::fs::create_dir_all(p.parent().unwrap()).unwrap();
+        std::fs::write(&p, e["content"].as_str().unwrap_or("")).unwrap();
+    }
 
     let metadata = build_metadata(&json!({"packages": [{"name": "wsaaa", "version": "1.0.0", "source": "path", "workspace": true, "deps": []}]}));
     let crate_file = cache_dir.join("cache").join(format!("{name}-{version}.crate"));
@@ -2834,10 +2840,11 @@ fn run_unpack(case: &Value) -> Value {
 // directory, each through the real Store::acquire_offline / Store::commit (or drop)
 // and Cache::acquire / drop, with generated start delays and think times.
 
-fn lock_cfg(metadata: &Metadata, dir: &std::path::Path, cache_dir: &std::path::Path) -> Config {
+fn lock_cfg(metadata: &Metadata, dir: &std::path::Path, cache_dir: &std::path::Path, locked: bool) -> Config {
     use clap::Parser;
-    let crate::cli::FakeCli::Vet(cli) =
-        crate::cli::FakeCli::try_parse_from(["cargo", "vet"]).expect("cli");
+    // `--locked` is a global option: store-writing commands commit under it just as well
+    let args: &[&str] = if locked { &["cargo", "vet", "--locked"] } else { &["cargo", "vet"] };
+    let crate::cli::FakeCli::Vet(cli) = crate::cli::FakeCli::try_parse_from(args).expect("cli");
     Config {
         metacfg: crate::format::MetaConfig(vec![crate::format::MetaConfigInstance {
             version: Some(1),
@@ -2878,7 +2885,7 @@ fn run_lock(case: &Value) -> Value {
     std::fs::create_dir_all(&dir).unwrap();
     // initial files, with padding so that a write takes a while
     let pad = case["padding"].as_u64().unwrap_or(0);
-    let mut config = String::from("\n[cargo-vet]\nversion = \"0.10\"\n");
+    let mut config = String::from("\n[cargo-vet]\nversion = \"1.0\"\n");
     let mut audits = String::from("\n[audits]\n");
     let mut imports = String::from("\n[audits]\n");
     for i in 0..pad {
@@ -2916,7 +2923,7 @@ fn run_lock(case: &Value) -> Value {
                     let start = Duration::from_micros(u["start_us"].as_u64().unwrap_or(0));
                     let think = Duration::from_micros(u["think_us"].as_u64().unwrap_or(0));
                     let r = catch_unwind(AssertUnwindSafe(|| {
-                        let cfg = lock_cfg(metadata, dir, cache_dir);
+                        let cfg = lock_cfg(metadata, dir, cache_dir, u["locked"].as_bool().unwrap_or(false));
                         std::thread::sleep(start);
                         let asked = t0.elapsed().as_micros() as u64;
                         let which = usize::from(role == "cache");
@@ -3011,7 +3018,7 @@ fn run_lock(case: &Value) -> Value {
     });
 
     // final state, read back through the real loader
-    let cfg = lock_cfg(&metadata, &dir, &cache_dir);
+    let cfg = lock_cfg(&metadata, &dir, &cache_dir, false);
     let (final_markers, final_pad, final_status) = match Store::acquire_offline(&cfg) {
         Ok(s) => (
             store_markers(&s).to_vec(),
